@@ -214,9 +214,18 @@ def jobs_for(tier):
     # reduced-precision communication (one step from a common state): replicas identical, deviation = rounding of the communicated quantity
     add([(2, 4), (3,)], even_cuts([(2, 4), (3,)], 1), hsdp=dict(replicate=2, group=2, comm="BF16"), graft=None, T=1, sps=1, fixed=dict(mom=0))
     add([(2, 4), (3,)], even_cuts([(2, 4), (3,)], 2, offsets=[[5], [2]]), hsdp=dict(replicate=2, group=2, comm="FP16", communicate_params=True), graft="sgd", T=1, sps=1, fixed=dict(mom=0, wd=0))
+    # parameter dtype (4 bytes) != communication dtype (2 bytes) with block sizes that are not 64-byte multiples in either: the owner assignment and the
+    # buffer layout must come from the same (communication-dtype) sizes
+    add([(5, 5), (5,), (4, 3), (4,)], even_cuts([(5, 5), (5,), (4, 3), (4,)], 1), hsdp=dict(replicate=2, group=2, comm="BF16"), graft=None, T=1, sps=1, mpd=5, merge=False,
+        fixed=dict(mom=0, wd=0, b1=0), mixed_sizes=True)
     # HSDP with a gradient that comes and goes for a block owned by ONE replica rank while every rank keeps other gradients
     add([(2, 4), (3,), (2,)], even_cuts([(2, 4), (3,), (2,)], 1), hsdp=dict(replicate=2, group=2), presence="symbolic", presence_params=[2], T=3, graft=None,
         fixed=dict(mom=0, wd=0, b1=0), merge=False)
+    # a size-1 dimension kept (no merging): the recovered blocks keep the parameter's order
+    add([(2, 1, 3)], even_cuts([(2, 1, 3)], 2, offsets=[[4]]), graft=None, merge=False, mpd=3, fixed=dict(mom=0, wd=0))
+    add([(1, 4)], even_cuts([(1, 4)], 1), graft="sgd", merge=False, mpd=4, fixed=dict(mom=0))
+    # two identical parameters: the middle rank holds the tail of the first and the head of the second (equal numel, different row alignment)
+    add([(2, 3), (2, 3)], [[(0, 2), (0, 0)], [(2, 6), (0, 4)], [(6, 6), (4, 6)]], graft=None, mpd=3, fixed=dict(mom=0, wd=0))
     # num_trainers_per_group a proper divisor of the replicate size: several distribution groups inside one replicate group
     add([(2, 4), (3,)], even_cuts([(2, 4), (3,)], 1), hsdp=dict(replicate=2, group=1), graft=None, fixed=dict(mom=0, wd=0))
     if tier == "thorough":
